@@ -83,6 +83,8 @@ pub fn crash_summary(stderr: &str) -> String {
                 || t.contains("Undefined Behavior")
                 || t.contains("non-unwinding panic")
                 || t.contains("harness panic")
+                || t.contains("ERROR: AddressSanitizer")
+                || t.starts_with("SUMMARY: AddressSanitizer")
         })
         .take(4)
         .collect();
@@ -318,7 +320,7 @@ pub fn stall_limit(launcher: &Launcher) -> std::time::Duration {
         .ok()
         .and_then(|s| s.parse().ok())
         .unwrap_or(match launcher {
-            Launcher::Native => 60,
+            Launcher::Native | Launcher::Asan => 60,
             Launcher::Miri => 900,
         });
     std::time::Duration::from_secs(secs)
@@ -329,7 +331,7 @@ pub fn stall_limit(launcher: &Launcher) -> std::time::Duration {
 pub fn case_limit(launcher: &Launcher) -> std::time::Duration {
     let w = stall_limit(launcher).as_secs();
     std::time::Duration::from_secs(match launcher {
-        Launcher::Native => w.min(20),
+        Launcher::Native | Launcher::Asan => w.min(20),
         Launcher::Miri => w.min(600),
     })
 }
@@ -339,6 +341,8 @@ pub fn case_limit(launcher: &Launcher) -> std::time::Duration {
 pub enum Launcher {
     Native,
     Miri,
+    /// the same harness built with AddressSanitizer (path in VERIF_ASAN_BIN)
+    Asan,
 }
 
 fn command_for(launcher: &Launcher, args: &[String]) -> Command {
@@ -347,6 +351,18 @@ fn command_for(launcher: &Launcher, args: &[String]) -> Command {
             let exe = std::env::current_exe().expect("current_exe");
             let mut c = Command::new(exe);
             c.args(args);
+            c
+        }
+        Launcher::Asan => {
+            let exe = std::env::var("VERIF_ASAN_BIN").unwrap_or_else(|_| {
+                verif_dir()
+                    .join("target/asan/x86_64-unknown-linux-gnu/verif/sim")
+                    .display()
+                    .to_string()
+            });
+            let mut c = Command::new(exe);
+            c.args(args);
+            c.env("ASAN_OPTIONS", "detect_leaks=0:abort_on_error=0:allocator_may_return_null=1");
             c
         }
         Launcher::Miri => {
@@ -569,7 +585,7 @@ pub fn run_batch(b: &Batch) -> BatchResult {
             count,
             time_cap_s: b.time_cap_s,
             trace: false,
-            sets_file: if b.launcher == Launcher::Native {
+            sets_file: if b.launcher != Launcher::Miri {
                 Some(tmp_dir().join(format!(
                     "sets-{}-{}-{}-{}.bin",
                     std::process::id(),
@@ -899,7 +915,14 @@ pub fn persist_violation(
         .set("verif_seed", J::s(&seed.to_string()))
         .set("run", run.map(J::u).unwrap_or(J::Null))
         .set("config", J::s(config))
-        .set("launcher", J::s(if *launcher == Launcher::Miri { "miri" } else { "native" }))
+        .set(
+            "launcher",
+            J::s(match launcher {
+                Launcher::Miri => "miri",
+                Launcher::Asan => "asan",
+                Launcher::Native => "native",
+            }),
+        )
         .set("shrink_candidates_tried", J::u(tried as u64))
         .set("original_case_bytes", J::u(v.case.to_string().len() as u64))
         .set("case", minimal.case.clone());
@@ -943,10 +966,10 @@ pub fn replay_main(path: &str) -> i32 {
         eprintln!("harness: {path} is not a replay file");
         return 2;
     };
-    let launcher = if j.str_of("launcher") == Ok("miri") {
-        Launcher::Miri
-    } else {
-        Launcher::Native
+    let launcher = match j.str_of("launcher") {
+        Ok("miri") => Launcher::Miri,
+        Ok("asan") => Launcher::Asan,
+        _ => Launcher::Native,
     };
     println!("replaying {path}: property={property} class={class} launcher={launcher:?}");
     match case_in_child(&launcher, case) {
